@@ -49,11 +49,19 @@ func H_C20_forward() {
 		return
 	}
 	vrt.Assert(op+": forward work writes to no shared object", w1 == 0 && w2 == 0)
+	vrt.FootprintBegin(xs[0])
+	scalarAccessors(xs[0])
+	vrt.Assert("value-returning methods (reductions, NElems, Shape, At, Equals, ...) write to no shared object", vrt.FootprintEnd("") == 0)
 	vrt.Assert(op+": the two results are distinct objects", y1 != y2)
 	checkTensor(op+": both computations obtain the sequential result", y2, vrt.Dims(y1), vrt.Flat(y1))
 	vrt.Assert(op+": tracking of the results agrees", vrt.Tracked(y1) == vrt.Tracked(y2) && vrt.Dirty(y1) == vrt.Dirty(y2))
 	// native replay (built with -race): the same work in real goroutines
-	vrt.Concurrently(3, func(int) { c08Apply(op, xs) })
+	vrt.Concurrently(3, func(int) {
+		c08Apply(op, xs)
+		x := xs[0]
+		_, _, _, _ = x.NElems(), x.Shape(), x.Avg(), x.Std()
+		_, _ = x.Equals(x)
+	})
 	vrt.Reach("done")
 }
 
